@@ -587,21 +587,24 @@ func (s *Stream) StartMessageRead(ctx context.Context) error {
 
 // readNextFrame reads the next frame and appends to receive buffer
 func (s *Stream) readNextFrame(ctx context.Context) error {
-	frameData, endFlag, err := s.ReceiveFrameWithEnd(ctx)
-	if err != nil {
-		return err
+	// Iterate rather than recurse: the number of partial frames in a message is
+	// chosen by the peer, and one stack frame per (possibly empty) partial frame
+	// lets it exhaust the goroutine stack.
+	for {
+		frameData, endFlag, err := s.ReceiveFrameWithEnd(ctx)
+		if err != nil {
+			return err
+		}
+
+		// Append frame data to receive buffer
+		s.receiveBuffer = append(s.receiveBuffer, frameData...)
+		s.totalMsgBytes = len(s.receiveBuffer)
+
+		// If this is not the final frame, read more frames
+		if endFlag != EndFlagPartial {
+			return nil
+		}
 	}
-
-	// Append frame data to receive buffer
-	s.receiveBuffer = append(s.receiveBuffer, frameData...)
-	s.totalMsgBytes = len(s.receiveBuffer)
-
-	// If this is not the final frame, read more frames
-	if endFlag == EndFlagPartial {
-		return s.readNextFrame(ctx) // Recursively read until complete message
-	}
-
-	return nil
 }
 
 // ReceiveCompleteMessage receives a complete message, reading multiple frames if necessary
